@@ -317,13 +317,36 @@ impl GuestMemoryRegion for MockRegion {
 }
 
 pub struct MockMemory {
+    /// in storage (= iteration) order, which is not the address order: the trait promises none
     pub regions: Vec<MockRegion>,
+    /// storage index of the layout's i-th region
+    order: Vec<usize>,
 }
 
 impl MockMemory {
+    /// The storage order rotates with the layout: as given, reversed, or rotated by one (a slot
+    /// table filled in registration order).
     pub fn new(l: &Layout) -> MockMemory {
+        let n = l.regs.len();
+        let kind = (l.regs.iter().map(|r| (r.0 % 7) as usize + r.1 as usize % 5).sum::<usize>() + n) % 3;
+        Self::with_order(l, kind)
+    }
+
+    pub fn with_order(l: &Layout, kind: usize) -> MockMemory {
+        let n = l.regs.len();
+        // layout index held by storage slot k
+        let slots: Vec<usize> = match kind {
+            0 => (0..n).collect(),
+            1 => (0..n).rev().collect(),
+            _ => (0..n).map(|k| (k + 1) % n.max(1)).collect(),
+        };
+        let mut order = vec![0usize; n];
+        for (k, li) in slots.iter().enumerate() {
+            order[*li] = k;
+        }
         MockMemory {
-            regions: l.regs.iter().map(|(s, n)| MockRegion::new(*s, *n as usize)).collect(),
+            regions: slots.iter().map(|li| MockRegion::new(l.regs[*li].0, l.regs[*li].1 as usize)).collect(),
+            order,
         }
     }
 }
@@ -356,6 +379,6 @@ impl RegionPtrs for GuestMemoryMmap<()> {
 
 impl RegionPtrs for MockMemory {
     fn region_ptr(&self, i: usize) -> *mut u8 {
-        self.regions[i].ptr()
+        self.regions[self.order[i]].ptr()
     }
 }
